@@ -328,6 +328,7 @@ type recorder struct {
 	maxFlight int32
 	lastTick  []int
 	dupTicks  int
+	sched     uintptr
 }
 
 func (r *recorder) add(ev event) int {
@@ -337,6 +338,13 @@ func (r *recorder) add(ev event) int {
 }
 
 func (r *recorder) hook(ev scheduler.VerifEvent) {
+	// events of another scheduler (a straggler of an earlier execution) are not ours
+	if ev.Kind == scheduler.VerifNewSched {
+		atomic.CompareAndSwapUintptr(&r.sched, 0, ev.Sched)
+	}
+	if atomic.LoadUintptr(&r.sched) != ev.Sched {
+		return
+	}
 	if ev.Kind == scheduler.VerifLIter {
 		r.perturbAt(ev.Kind)
 		return
@@ -474,7 +482,7 @@ func runCase(c config, seed uint64) result {
 	n := len(c.Jobs)
 	rec.bodyStart = make([][]int64, n)
 	rec.bodyEnd = make([][]int64, n)
-	scheduler.VerifHook = rec.hook
+	curRec.Store(rec)
 
 	ctxs := []*hctx{newCtx(0, c.CtxDeadline[0]), newCtx(1, c.CtxDeadline[1]), newCtx(2, c.CtxDeadline[2])}
 	doCancel := func(id int, who string, job int) {
@@ -598,7 +606,7 @@ func runCase(c config, seed uint64) result {
 		res.Hang = "caller did not return (Enqueue/Wait blocked)\n" + d2
 		res.HangStable = stableDump(d1) == stableDump(d2)
 		res.CallerHung = true
-		scheduler.VerifHook = nil
+		curRec.Store(nil)
 		rec.mu.Lock()
 		res.Events = append([]event{}, rec.events...)
 		res.BodyStart, res.BodyEnd = rec.bodyStart, rec.bodyEnd
@@ -654,7 +662,7 @@ func runCase(c config, seed uint64) result {
 		}
 		time.Sleep(50 * time.Microsecond)
 	}
-	scheduler.VerifHook = nil
+	curRec.Store(nil)
 	rec.mu.Lock()
 	res.Events = rec.events
 	res.BodyStart, res.BodyEnd = rec.bodyStart, rec.bodyEnd
@@ -669,8 +677,70 @@ func runCase(c config, seed uint64) result {
 	return res
 }
 
+// runConc exercises concurrent use of Enqueue: independent jobs are enqueued from
+// several goroutines at once (no hooks: the race detector is the observer here).
+type concResult struct {
+	Kind    string   `json:"kind"`
+	Jobs    int      `json:"jobs"`
+	Callers int      `json:"callers"`
+	N       int      `json:"n"`
+	CoE     bool     `json:"coe"`
+	RanOnce bool     `json:"ran_once"`
+	WaitErr []string `json:"wait_err"`
+}
+
+func runConc(r *rng.R) concResult {
+	n := 1 + r.Intn(64)
+	g := 2 + r.Intn(6)
+	conc := 1 + r.Intn(8)
+	coe := r.Bool()
+	s := scheduler.Config{Concurrency: conc, ContinueOnError: coe}.New()
+	counts := make([]int32, n)
+	ctx := context.Background()
+	var wg sync.WaitGroup
+	for c := 0; c < g; c++ {
+		c := c
+		wg.Add(1)
+		go func() {
+			defer wg.Done()
+			for k := c; k < n; k += g {
+				k := k
+				s.Enqueue(ctx, scheduler.Job{Run: func(context.Context) error {
+					atomic.AddInt32(&counts[k], 1)
+					return nil
+				}})
+			}
+		}()
+	}
+	wg.Wait()
+	err := s.Wait(ctx)
+	res := concResult{Kind: "conc", Jobs: n, Callers: g, N: conc, CoE: coe, RanOnce: true, WaitErr: []string{}}
+	for _, e := range multierr.Errors(err) {
+		res.WaitErr = append(res.WaitErr, encErr(e))
+	}
+	for k := range counts {
+		if atomic.LoadInt32(&counts[k]) != 1 {
+			res.RanOnce = false
+		}
+	}
+	return res
+}
+
+// curRec is the recorder of the execution in progress. The scheduler's hook variable is
+// written once, before any scheduler exists; which recorder receives the events is an
+// atomic pointer, so that goroutines of an earlier execution never race with the harness.
+var curRec atomic.Pointer[recorder]
+
+func dispatchHook(ev scheduler.VerifEvent) {
+	if r := curRec.Load(); r != nil {
+		r.hook(ev)
+	}
+}
+
 func main() {
+	scheduler.VerifHook = dispatchHook
 	seed := flag.Uint64("seed", 1, "seed")
+	nconc := flag.Int("conc", 0, "additional executions with concurrent Enqueue (no hooks)")
 	count := flag.Int("count", 100, "executions")
 	maxJobs := flag.Int("maxjobs", 24, "max jobs per execution")
 	only := flag.Int("only", -1, "run only this case index")
@@ -679,6 +749,9 @@ func main() {
 	defer w.Flush()
 	enc := json.NewEncoder(w)
 	master := rng.New(*seed)
+	for i := 0; i < *nconc; i++ {
+		enc.Encode(runConc(master.Fork()))
+	}
 	for i := 0; i < *count; i++ {
 		cs := master.U64()
 		if *only >= 0 && i != *only {
